@@ -33,6 +33,8 @@ KERNELS = {
                    coef=[('v1::Linear', 'terms'), ('v1::linear::Term', 'coefficient')],
                    ids=[[('v1::Linear', 'terms'), ('v1::linear::Term', 'id')]]),
     'Quadratic': dict(ty='v1::Quadratic', init='linear-part',
+                      # the optional part, if its evaluation is written out in place instead of being called: paths of the part's kernel below this prefix
+                      part=dict(prefix=[('v1::Quadratic', 'linear'), ('std::option::Option::Some', '0')], kernel='Linear', test=('v1::Quadratic', 'linear')),
                       coef=[('v1::Quadratic', 'values')],
                       ids=[[('v1::Quadratic', 'rows')], [('v1::Quadratic', 'columns')]]),
     'Polynomial': dict(ty='v1::Polynomial', init='zero',
@@ -840,7 +842,7 @@ def comp_leaves(c):
 
 class Kernel:
     def __init__(self, ctx, body):
-        self.ctx = ctx; self.body = body; self.vx = VX(body); self.spec = None; self.oks = None      # oks: the Ok-exits that count as "the" exit (shortcut exits are validated separately)
+        self.ctx = ctx; self.body = body; self.vx = VX(body); self.spec = None; self.scope = None; self.oks = None      # oks: the Ok-exits that count as "the" exit (shortcut exits are validated separately)
         self.for_loops = T.for_loops(body)                       # (next_call, header, some_bb, none_bb, blocks)
         self.by_next = {lo[0].bb: lo for lo in self.for_loops}
         self.by_header = {lo[1]: lo for lo in self.for_loops}
@@ -1035,8 +1037,15 @@ class Kernel:
             if not any(all(body.dominates(s, e) for e in oks) for s in sites): why.append('not on every path to the Ok-exit')
             return why
         L1 = los[0]
-        if not all(body.dominates(L1[1], e) for e in oks): why.append('the loop does not dominate the Ok-exit')
-        if not must_pass_v(body, L1[2], oks, {L1[1]}): why.append('the loop can be left before the last element without an error')
+        if self.scope is not None:
+            # a phase that only runs on one side of a test (the written-out evaluation of an optional part): "always" means on every
+            # path from the entry of that side to where the next phase starts
+            entry, exits = self.scope
+            if not must_pass_v(body, entry, exits, {L1[1]}): why.append('the loop does not dominate the Ok-exit')
+            if not must_pass_v(body, L1[2], set(exits) | set(oks), {L1[1]}): why.append('the loop can be left before the last element without an error')
+        else:
+            if not all(body.dominates(L1[1], e) for e in oks): why.append('the loop does not dominate the Ok-exit')
+            if not must_pass_v(body, L1[2], oks, {L1[1]}): why.append('the loop can be left before the last element without an error')
         for Lo, Li in zip(los, los[1:]):
             if Li[1] not in Lo[4]: why.append('loops are not nested'); continue
             if not must_pass_v(body, Lo[2], {Lo[1]}, {Li[1]}): why.append('the inner loop is skipped on some path')
@@ -1069,13 +1078,26 @@ def live_closures(ctx, body, depth=0):
     return out
 
 
+def lookup_receiver(body, c):
+    """the map a lookup reads, as a value expression: through copies, references and fields of local structs that carry the state
+    (`reader.state.entries` with reader = Reader { state, .. }) back to a parameter"""
+    vx = getattr(body, '_c01_vx', None)
+    if vx is None: vx = body._c01_vx = VX(body)
+    return peel(vx.op(c.args[0]))
+
+
 def state_lookups(ctx, body, state_param=2):
     out = []
     for c in body.calls:
         if c.item == 'get' and re.search(STATE_GET, c.name):
             fs, root, _ = T.access_path(body, c.args[0])
-            if ('v1::State', 'entries') in fs: out.append(c)
+            if ('v1::State', 'entries') in fs or ('v1::State', 'entries') in T.expr_fields(lookup_receiver(body, c)): out.append(c)
     return out
+
+
+def in_given_state(body, c, param=2):
+    r = lookup_receiver(body, c)
+    return T.access_path(body, c.args[0])[1] == param or (r[0] == 'place' and r[1] == param and r[2][-1:] == [('v1::State', 'entries')])
 
 
 def is_lookup(e):
@@ -1133,7 +1155,7 @@ def kernel_rules(ctx, short):
     decide(ctx, R + '.lookup/%s/only-missing-variable-fails' % short, 'T-ERRFLOW', body,
            [('evaluation can fail although no variable is missing from the state', body.site(e)) for e in other_failures(body, sources)])
     decide(ctx, R + '.lookup/%s/state' % short, 'T-CARRY', body,
-           [('lookup is not in the given state', body.site(c.bb)) for c in lookups if T.access_path(body, c.args[0])[1] != 2])
+           [('lookup is not in the given state', body.site(c.bb)) for c in lookups if not in_given_state(body, c)])
     # lookups hidden in closures that the normal form could not splice cannot be followed: fail closed (but see weak_kernel)
     def visible_rule():
         decide(ctx, R + '.lookup/%s/visible' % short, 'T-ERRFLOW', body,
@@ -1203,6 +1225,14 @@ def kernel_rules(ctx, short):
         result_rule([('an early exit beside a value that is not accumulated', body.site(e)) for e, v, st in shortcuts]); return
     acc_l, inits, ups = rec
     heads = {K.innermost(bi) for op, x, bi in ups}
+    # "callee written out in place": the evaluation of the optional part as a second loop before the main loop (instead of part.evaluate(state)?)
+    part_loop = None; ups_part = []
+    if len(heads) == 2 and spec.get('part'):
+        main = [h for h in heads if h in K.by_header and all(body.dominates(h, e) for e in K.oks)]
+        rest = [h for h in heads if h not in main]
+        if len(main) == 1 and len(rest) == 1 and rest[0] in K.by_header and main[0] in body.reach([rest[0]]) and rest[0] not in body.reach([main[0]]):
+            part_loop = K.by_header[rest[0]]
+            ups_part = [u for u in ups if K.innermost(u[2]) == rest[0]]; ups = [u for u in ups if K.innermost(u[2]) == main[0]]; heads = set(main)
     Lp = K.by_header.get(list(heads)[0]) if len(heads) == 1 else None
     ctx.check(Lp is not None, R + '.every-term/%s/loop' % short, 'T-LOOPMUST', fn, 'the updates of the sum are not in one `for`-like loop over the terms (loop headers %s)' % sorted(heads, key=str), body.site(ups[0][2]))
     if Lp is None:
@@ -1215,15 +1245,38 @@ def kernel_rules(ctx, short):
         return K.canon(K.by_header[h][0].bb) if h in K.by_header else None
 
     # ---- every term: the term loop iterates the message's own lists, completely; the update lies on every path
-    why = K.every_iteration([term_loop], [bi for op, x, bi in ups])
+    part_info = written_out_part(ctx, K, short, spec, inits, Lp, part_loop, ups_part, sop) if part_loop is not None else None
+    why = K.every_iteration([term_loop], [bi for op, x, bi in ups]) + (part_info['every'] if part_info else [])
     ctx.check(not [w for w in why if 'dominate' in w], R + '.every-term/%s/dominates' % short, 'T-MUSTCALL', fn, 'term loop does not dominate the Ok-exit', body.site(Lp[0].bb))
     ctx.check(not [w for w in why if 'left before' in w], R + '.every-term/%s/all-terms' % short, 'T-LOOPMUST', fn, 'the term loop can end before the last term without an error', body.site(Lp[0].bb))
     ctx.check(not [w for w in why if 'skips' in w], R + '.every-term/%s/accumulated' % short, 'T-LOOPMUST', fn, 'a term can be skipped without being added', body.site(ups[0][2]))
 
     # ---- init
-    init_check(ctx, K, short, spec['init'], inits, Lp)
+    if part_info is None: init_check(ctx, K, short, spec['init'], inits, Lp)
 
-    # ---- the term: coefficient × Π state[id]
+    # ---- the term: coefficient × Π state[id]   (main phase, plus the written-out part if there is one)
+    A = term_analysis(K, spec, ups, term_loop)
+    if part_info is not None:
+        for k in ('other', 'once', 'loops'): A[k] += part_info['terms'][k]
+        A['facs'] += part_info['terms']['facs']; A['shape_ok'] = A['shape_ok'] and part_info['terms']['shape_ok']
+        A['keys_ok'] = A['keys_ok'] and part_info['terms']['keys_ok']; A['keys'] += part_info['terms']['keys']; A['want'] += part_info['terms']['want']
+    ctx.check(A['shape_ok'], R + '.fields/%s/term-is-coefficient-times-values' % short, 'T-BRANCHFX', fn,
+              'term is not coefficient × Π value(id): factors = %s' % A['facs'], body.site(ups[0][2]), factors=A['facs'])
+    ctx.check(A['keys_ok'], R + '.fields/%s/lookup-keys' % short, 'T-CARRY', fn, 'values are looked up under %s, expected %s' % (A['keys'], A['want']), body.site(ups[0][2]))
+    decide(ctx, R + '.fields/%s/one-factor-per-id' % short, 'T-LOOPMUST', body, A['once'])
+    decide(ctx, R + '.every-term/%s/iterates-message-directly' % short, 'T-LOOPMUST', body, A['loops'])
+
+    # ---- used ids
+    used_rules(ctx, K, short, spec, sop, part_info['used'] if part_info is not None else None)
+
+
+def term_analysis(K, spec, ups, term_loop):
+    """the updates `sum += term` of one phase against  term = coefficient × Π state[id]  with the paths of `spec`"""
+    body = K.body; vx = K.vx
+    tl = K.canon(term_loop)                # after loop fission the loop that computed the terms stands for the loop that adds them
+    def loop_at(bb):
+        h = K.innermost(bb)
+        return K.canon(K.by_header[h][0].bb) if h in K.by_header else None
     loops_used = {term_loop}
     coefs = []; looks = []; other = []
     for op, term, ubi in ups:
@@ -1235,8 +1288,7 @@ def kernel_rules(ctx, short):
             else: other.append((f, via))
     nups = len(ups)
     facs = ['%s' % T.expr_str(f[0]) if f[0][0] != 'bad-accumulator' else 'accumulator updated by %s' % f[0][1] for f in coefs + looks + other]
-    ctx.check(len(coefs) == nups and not other and len(looks) == nups * len(spec['ids']), R + '.fields/%s/term-is-coefficient-times-values' % short, 'T-BRANCHFX', fn,
-              'term is not coefficient × Π value(id): factors = %s' % facs, body.site(ups[0][2]), factors=facs)
+    shape_ok = len(coefs) == nups and not other and len(looks) == nups * len(spec['ids'])
     # each lookup is keyed by an id of this term, and multiplied in exactly once per occurrence of the id
     keys = []; once = []
     for f, via, ubi in looks:
@@ -1260,8 +1312,7 @@ def kernel_rules(ctx, short):
         if [K.canon(x) for x in mp[1]] != [tl] or via is not None and loop_at(via) != tl:
             once.append(('the coefficient is not the one of the current term', body.site(ubi)))
     want = sorted(p[-1][1] for p in spec['ids'])
-    ctx.check(sorted(x for x in keys if x) == want * nups and None not in keys, R + '.fields/%s/lookup-keys' % short, 'T-CARRY', fn, 'values are looked up under %s, expected %s' % (keys, want), body.site(ups[0][2]))
-    decide(ctx, R + '.fields/%s/one-factor-per-id' % short, 'T-LOOPMUST', body, once)
+    keys_ok = sorted(x for x in keys if x) == want * nups and None not in keys
     # the loops that yield coefficient and ids run over the message's own lists (no filtered, de-duplicated or re-ordered copy)
     probs = []
     for nb in sorted(loops_used):
@@ -1270,10 +1321,7 @@ def kernel_rules(ctx, short):
     for f, via, ubi in looks:
         if K.msg_path(f[3][1]) is None:
             probs.append(('the id of a lookup does not come straight from the message\'s own list (%s)' % T.expr_str(f[3][1]), body.site(f[4] if len(f) > 4 else ubi)))
-    decide(ctx, R + '.every-term/%s/iterates-message-directly' % short, 'T-LOOPMUST', body, probs)
-
-    # ---- used ids
-    used_rules(ctx, K, short, spec, sop)
+    return dict(shape_ok=shape_ok, facs=facs, keys=keys, want=want, keys_ok=keys_ok, once=once, loops=probs, other=other)
 
 
 # ------------------------------------------------------------------------------------------------
@@ -1384,6 +1432,55 @@ def shortcut_problems(K, pair, guards, term_loop, rec, main_sop):
     return why
 
 
+def def_in_force(body, b, t, others, H):
+    """the definition in block b is the value at block H when control passes the edge target t (no other definition - blocks `others` - in between)"""
+    if b in reach_v(body, [t], stop={H}): return H in reach_v(body, [b], stop=others) or b == H
+    return t in reach_v(body, [b], stop=others | {H}) and H in reach_v(body, [t], stop=others)
+
+
+def written_out_part(ctx, K, short, spec, inits, Lp, P, ups_part, sop):
+    """The optional part of a kernel (Quadratic.linear) evaluated in place: `if let Some(part) = &self.part { sum = part.constant; for t in &part.terms { .. } }`
+    ≡ `part.evaluate(state)?`.  The part's loop P is checked against the part's own kernel (its paths below spec['part']['prefix']), scoped to the
+    Some side of the test on the part; the start value is decided on reaching definitions: 0.0 in force on the None side, the part's start value at P on the
+    Some side.  Emits the start-value instances of the kernel; returns the part's term / every-term / used-id findings to be merged with the main loop's."""
+    R = 'C01'; body = K.body; fn = body.name
+    part = spec['part']; sub = KERNELS[part['kernel']]; pre = part['prefix']
+    pspec = dict(coef=pre + sub['coef'], ids=[pre + p for p in sub['ids']], init=sub['init'])
+    tests = option_field_tests(body, *part['test'])
+    H = Lp[1]; PH = P[1]
+    side = [(sb, sm, nn) for sb, sm, nn in tests if PH in reach_v(body, [sm], stop={H}) and PH not in reach_v(body, [nn], stop={H})]
+    sm, nn = (side[0][1], side[0][2]) if side else (None, None)
+    saved = (K.spec, K.scope); K.spec = pspec; K.scope = (sm, {H}) if side else None
+    try:
+        every = K.every_iteration([P[0].bb], [bi for op, x, bi in ups_part]) if side else ['a path through the loop body skips it: the loop of the written-out part is not on the Some side of a test on the part']
+        terms = term_analysis(K, pspec, ups_part, P[0].bb)
+        used = used_analysis(K, pspec, sop)[:4]
+    finally:
+        K.spec, K.scope = saved
+    # start value
+    nz = [(peel(x), bi) for x, bi in inits if peel(x) != ('const', '0f64')]
+    entries = [e for x, bi in (nz if nz else inits) for e in flat_alts(x, bi)] if len(nz) <= 1 else []
+    descr = [T.expr_str(peel(x)) for x, bi in inits]
+    want_start = pre + [(sub['ty'], 'constant')] if sub['init'] == 'constant' else None
+    zero_ok = start_ok = False; rest = []
+    for x, bi in entries:
+        n = peel(x); others = {b for y, b in entries if b != bi}
+        if n == ('const', '0f64'):
+            if side and def_in_force(body, bi, nn, others, H) and not def_in_force(body, bi, sm, others, H) and (want_start is not None or def_in_force(body, bi, sm, others, PH)): zero_ok = True; continue
+            if side and want_start is None and def_in_force(body, bi, sm, others, PH): start_ok = True; continue
+        mp = K.msg_path(n)
+        if side and want_start is not None and mp is not None and same_path(mp[0], want_start) and not mp[1] \
+                and def_in_force(body, bi, sm, others, PH) and not def_in_force(body, bi, nn, others, H) and must_pass_v(body, sm, {PH}, {bi}): start_ok = True; continue
+        rest.append(x)
+    ctx.check(zero_ok, R + '.linear-none/zero', 'T-CONST', fn, 'absent linear part does not contribute (0, {})', body.site())
+    ctx.check(bool(side) and bool(reach_v(body, [nn]) & body.strict_ok_exits()), R + '.linear-none/ok', 'T-GUARD', fn, 'absent linear part leads to an error', body.site())
+    inside = [c for c in state_lookups(ctx, body) if c.bb in P[4]]
+    decide(ctx, R + '.fields/%s/linear-error' % short, 'T-ERRFLOW', body, [('linear part evaluation: ' + why, body.site(c.bb)) for c, why in errflow_bad(body, inside)] + ([] if inside else [('the written-out linear part looks up nothing', None)]))
+    outside = all(b not in Lp[4] and b not in P[4] for x, b in entries)
+    ctx.check(zero_ok and start_ok and not rest and outside, R + '.fields/%s/init' % short, 'T-CARRY', fn, 'accumulator does not start from %s (found %s)' % (spec['init'], descr), body.site())
+    return dict(every=every, terms=terms, used=used)
+
+
 def init_check(ctx, K, short, kind, inits, Lp):
     """inits: the summands the sum starts from (definitions of the accumulator outside the loop + summands added at the exit)"""
     R = 'C01'; body = K.body; fn = body.name
@@ -1402,10 +1499,7 @@ def init_check(ctx, K, short, kind, inits, Lp):
         entries = list(flat_alts(nz[0][0], nz[0][1])) if len(nz) == 1 else []
         tests = option_field_tests(body, 'v1::Quadratic', 'linear')
         H = Lp[1]
-        def in_force(b, t, others):
-            """the definition in block b is the value at the loop header when control passes the edge target t"""
-            if b in reach_v(body, [t], stop={H}): return H in reach_v(body, [b], stop=others) or b == H
-            return t in reach_v(body, [b], stop=others | {H}) and H in reach_v(body, [t], stop=others)
+        def in_force(b, t, others): return def_in_force(body, b, t, others, H)
         some_ok = none_ok = False; rest = []
         for x, bi in entries:
             n = peel(x); others = {b for y, b in entries if b != bi}
@@ -1435,8 +1529,9 @@ SET_INSERT = re.compile(r'BTreeSet::<.*>::insert$')
 SET_EXTEND = re.compile(r'BTreeSet<.*> as std::iter::Extend<.*>>::extend$|BTreeSet::<.*>::extend$')
 
 
-def used_rules(ctx, K, short, spec, sop):
-    R = 'C01'; body = K.body; fn = body.name; vx = K.vx
+def used_analysis(K, spec, sop):
+    """(id fields recorded in the returned set, wanted id fields, stray-insert problems, every-id problems)"""
+    body = K.body; vx = K.vx
     set_l = T.access_path(body, sop, transparent=T.TRANSPARENT_NOCLONE)[1]
     def into_set(c):
         return T.access_path(body, c.args[0], transparent=T.TRANSPARENT_NOCLONE)[1] == set_l
@@ -1453,7 +1548,7 @@ def used_rules(ctx, K, short, spec, sop):
             mp = K.msg_path(comp[1]) if comp[0] == 'src' else None
             if mp is None or not any(same_path(mp[0], p) for p in spec['ids']): continue
             (sites if into_set(c) else stray).append((c, mp[0], mp[1]))
-    got = []; probs = []
+    probs = []
     for p in spec['ids']:
         cands = [s for s in sites if same_path(s[1], p)]
         why = None
@@ -1461,18 +1556,29 @@ def used_rules(ctx, K, short, spec, sop):
             w = K.every_iteration(chain, [c.bb])
             # the loops crossed must run over the message's own lists
             for nb in chain: w += K.loop_problems(nb)
-            if not w: why = None; got.append(p[-1][1]); break
+            if not w: why = None; break
             why = w
         if why: probs.append(('an id of %s can be skipped: %s' % (p[-1][1], '; '.join(why)), body.site(cands[0][0].bb)))
     want = sorted(p[-1][1] for p in spec['ids'])
     seen = sorted({s[1][-1][1] for s in sites})
-    ctx.check(seen == want, R + '.used/%s/ids' % short, 'T-CARRY', fn, 'ids recorded in the result set are %s, expected %s' % (seen, want), body.site())
-    decide(ctx, R + '.used/%s/into-result-set' % short, 'T-CARRY', body,
-           [('id is inserted into another set', body.site(c.bb)) for c, fs, ch in stray if not any(same_path(s[1], fs) for s in sites)])
-    decide(ctx, R + '.used/%s/every-id' % short, 'T-LOOPMUST', body, probs)
+    strays = [('id is inserted into another set', body.site(c.bb)) for c, fs, ch in stray if not any(same_path(s[1], fs) for s in sites)]
+    return seen, want, strays, probs, set_l
+
+
+def used_rules(ctx, K, short, spec, sop, part=None):
+    """part: used_analysis of a written-out part (its ids must be recorded too)"""
+    R = 'C01'; body = K.body; fn = body.name
+    seen, want, strays, probs, set_l = used_analysis(K, spec, sop)
+    ctx.check(seen == want and (part is None or part[0] == part[1]), R + '.used/%s/ids' % short, 'T-CARRY', fn,
+              'ids recorded in the result set are %s, expected %s' % (seen + (part[0] if part else []), want + (part[1] if part else [])), body.site())
+    decide(ctx, R + '.used/%s/into-result-set' % short, 'T-CARRY', body, strays + (part[2] if part else []))
+    decide(ctx, R + '.used/%s/every-id' % short, 'T-LOOPMUST', body, probs + (part[3] if part else []))
     if spec['init'] == 'linear-part':
-        s = K.S.backslice(body, [set_l])
-        ctx.check(s.has_call(r'v1::Linear as evaluate::Evaluate>::evaluate'), R + '.used/Quadratic/includes-linear-ids', 'T-CARRY', fn, 'ids of the linear part are not reported', body.site())
+        if part is not None:
+            ctx.check(part[0] == part[1] and not part[3], R + '.used/Quadratic/includes-linear-ids', 'T-CARRY', fn, 'ids of the linear part are not reported', body.site())
+        else:
+            s = K.S.backslice(body, [set_l])
+            ctx.check(s.has_call(r'v1::Linear as evaluate::Evaluate>::evaluate'), R + '.used/Quadratic/includes-linear-ids', 'T-CARRY', fn, 'ids of the linear part are not reported', body.site())
 
 
 # ------------------------------------------------------------------------------------------------
